@@ -106,8 +106,8 @@ SENDER_KINDS = "tqk"
 
 
 def sender_progs(rng, reent, mid0=1):
-    """1..3 sender threads with 1..3 ops each, ids unique in the case; with reentrancy: block messages, their
-    responses (sometimes a response nobody asked for) and passivation pills"""
+    """1..3 sender threads with 1..3 ops each, ids unique in the case; passivation pills; with reentrancy: block
+    messages and their responses (sometimes a response nobody asked for)"""
     progs = []
     mid = mid0
     blocks = []
@@ -118,7 +118,8 @@ def sender_progs(rng, reent, mid0=1):
             if reent and r < 0.25:
                 ops.append(f"b{mid}")
                 blocks.append(mid)
-            elif reent and r < 0.33:
+            elif r < 0.33 and (reent or r >= 0.27):
+                # a pill reaches a grain WITHOUT reentrancy too: passivationTry sends one when the grain is not Idle
                 ops.append(f"z{mid}")
             else:
                 ops.append(rng.choice(SENDER_KINDS) + str(mid))
